@@ -115,6 +115,24 @@ def tlc_mc(module, cfg, tag, workers=8, timeout=1800, xmx="8g", expect_violation
     return res
 
 
+def apalache_inductive(module_dir, module, init="Init", ind_init="IndInit", inv="IndInv", timeout=900):
+    """Apalache: Init => Inv (length 0) and Inv /\\ Next => Inv' (length 1, from IndInit).  Returns dict(ok, wall, out)."""
+    t0 = time.time()
+    outdir = workdir("apalache_" + module)
+    res = []
+    for args in (["--init=" + init, "--inv=" + inv, "--length=0"], ["--init=" + ind_init, "--inv=" + inv, "--length=1"]):
+        cmd = ["apalache-mc", "check", "--out-dir=" + outdir, "--run-dir=" + os.path.join(outdir, "run")] + args + [module + ".tla"]
+        try:
+            p = subprocess.run(cmd, cwd=module_dir, capture_output=True, text=True, timeout=timeout)
+        except subprocess.TimeoutExpired:
+            raise ToolError("apalache timeout on %s" % module)
+        res.append("EXITCODE: OK" in p.stdout)
+        if not res[-1]:
+            raise ToolError("apalache: %s %s failed:\n%s" % (module, " ".join(args), p.stdout[-2000:]))
+    shutil.rmtree(outdir, ignore_errors=True)
+    return dict(ok=all(res), wall=time.time() - t0)
+
+
 def tlc_eval(module, cfg, tag, env=None, timeout=900, xmx="6g"):
     """Run a one-shot TLC evaluation module (ASSUME / Init only).  Returns cleaned output."""
     meta = workdir("tlc_" + tag)
